@@ -11,7 +11,7 @@ CHECK = {
  'rule': '2 fans: all 7 start delays {0,1ms,3ms,0.7s,1.4s,20s, after the previous fan finished} x 3x3 settle models; 3 fans (quick: 4 delays^2 x 2^3 models; thorough: 7^2 x 3^3) and 4 fans '
          '(thorough: 4^3 x 2^4); every fan needs analysis: nothing stored (sweep + RPM-curve measurement, about 9 virtual minutes), nothing stored with a configured pwmMap (measurement only) or only the RPM curve stored (sweep only); mixed kinds on steady-settle schedules. Additionally a shutdown request (context cancelled after 4/8/12/20 s) while one fan is analysed and others are queued (short analyses, 6 kind assignments x 3 start delays): a queued fan still waits for its turn. With the option false the analysis intervals must be pairwise '
          'disjoint and every fan must finish; with the option true a sample of the same schedules is run to show overlap is observable (non-vacuity). '
-         'distinct_nontrivial = distinct (schedule, interval vector) outcomes.',
+         'distinct_nontrivial = distinct (schedule, interval vector) outcomes. An already analysed bystander fan (everything stored) started 0/1 ms/3 s/8 s after the others must not disturb the queue (6 kind assignments).',
  'assumptions': COMMON_ASSUME + ['vsync.Mutex (Cond-based) replaces sync.Mutex in the controller package so that lock waits are durable blocks for the virtual clock',
                                    'goroutines are interleaved at blocking points only (sleeps, lock waits); the initialisation code sleeps between all its steps'],
  'level_text': 'complete enumeration of a finite schedule space on the real code in virtual time; mutual exclusion checked on every schedule',
